@@ -1,5 +1,5 @@
 """property id -> check function"""
-from . import storecheck, followcheck, wirecheck, httpcheck, c06check
+from . import storecheck, followcheck, wirecheck, httpcheck, c06check, crashcheck
 
 REGISTRY = {}
 for p in ("C01", "C05", "C06", "C07", "C08", "C09", "C20"):
@@ -14,3 +14,5 @@ REGISTRY["C13"] = httpcheck.run
 REGISTRY["C10"] = httpcheck.run
 
 REGISTRY["C06"] = c06check.run
+
+REGISTRY["C04"] = crashcheck.run
